@@ -111,5 +111,5 @@ macro_rules! xor_far {
 }
 //@ id=C11 tier=quick name=c11_far_k8 timeout=900 role=xor_far bound=key-8,positions-to-2^62,direct-over-sparse-file-model
 xor_far!(c11_far_k8, 8);
-//@ id=C11 tier=thorough name=c11_far_k3 timeout=2400 role=xor_far bound=key-3,positions-to-2^62
+//@ id=C11 tier=quick name=c11_far_k3 timeout=1200 role=xor_far bound=key-3,positions-to-2^62
 xor_far!(c11_far_k3, 3);
